@@ -367,9 +367,10 @@ def main(ck):
         if not deep:
           if sat <= 0:      # penetrating: exact depth D = -sat
             D = -sat
-            if not (-dmin >= D - tprim and -dmin <= D * BOXBOX_FUDGE + tprim):
+            tbb = tprim + 1e-8 * sc      # the collider's own rounding slacks (mjBOXBOX_*EPS); worst observed 2e-10*sc
+            if not (-dmin >= D - tbb and -dmin <= D * BOXBOX_FUDGE + tbb):
               hard('box-box depth %.17g outside [D, D/0.95], D=%.17g' % (-dmin, D), 'dist:box-box')
-            if abs(w + dmin) > tprim + (BOXBOX_FUDGE - 1) * D:
+            if abs(w + dmin) > tbb + (BOXBOX_FUDGE - 1) * D:
               hard('box-box normal is not the axis of the reported depth: overlap along n %.17g, depth %.17g' % (
                   w, -dmin), 'normal:box-box')
           else:
